@@ -40,7 +40,7 @@ class Line:
 
 
 def classify(raw: str) -> Line:
-    s = raw.rstrip("\n")
+    s = raw.rstrip("\n").rstrip("\r")       # a listing saved with CRLF line endings is the same listing
     i = 0
     while i < len(s) and s[i] == " ":
         i += 1
